@@ -6,8 +6,15 @@ package redis
 // executed by miniredis' Lua engine) through Acquire / Release / SetExpire with the clock moved by
 // miniredis.FastForward; after every operation the store is read directly from miniredis.
 //
-// cfg:  n=<instances> keys=<distinct keys>     instance i locks key "k<i % keys>"
+// cfg:  n=<instances> keys=<distinct keys> [lazy=<m>]    instance i locks key "k<i % keys>"; the last m instances
+//                          are NOT constructed at the start of the section but by an explicit `new <i>` op
 // ops:  ft <ms> | acquire <i> | release <i> | setexpire <i> <seconds> | ids
+//       acquirectx <i> | releasectx <i>   the same calls entered through AcquireCtx / ReleaseCtx with a caller's context
+//       mass <m>           m further NewRedisLock calls on key k0 (instances dropped afterwards): all ids pairwise distinct and
+//                          distinct from the section's instances?  (birthday test of the id space) => <distinct|dup> len=<16|other> <store>
+//       new <i>            NewRedisLock for a lazy instance, in the middle of the history (after SetExpire calls on
+//                          other instances, while others hold locks): its id must differ from every other instance's,
+//                          its `seconds` must be the zero value (nothing is inherited from other instances)
 //       race <i> <j> ...   Acquire of distinct instances from concurrent goroutines (released together by a barrier)
 //       down | up          miniredis.SetError: every command fails / works again
 //       inj <p> <acquire i|release i> [ <op> ; <op> ... ]
@@ -56,6 +63,8 @@ type c19Hook struct {
 	lost  bool
 	cmds  []string // names of the commands sent; "!" appended if answered with an error
 }
+
+type c19CtxKey struct{}
 
 var errC19Lost = errors.New("verif: connection lost after the command was executed")
 
@@ -234,12 +243,39 @@ func c19ExhaustiveInj() []verifh.Section {
 	return out
 }
 
+// c19ExhaustiveNew: every sequence of length 4 over an alphabet with a construction in the middle of the history
+// (`new 2`, lazily constructed third instance on the one key), SetExpire on the other instances (small and at the
+// uint32-ms boundary 4294967) and the matching clock advances; operations of instance 2 only after its construction.
+func c19ExhaustiveNew() []verifh.Section {
+	alpha := []string{"setexpire 0 1", "setexpire 1 4294967", "new 2", "acquire 0", "acquire 1", "acquire 2", "release 2", "ft 500", "ft 4294967000"}
+	var out []verifh.Section
+	var rec func(prefix []string, made bool)
+	rec = func(prefix []string, made bool) {
+		if len(prefix) == 4 {
+			out = append(out, verifh.Section{Cfg: "n=3 keys=1 lazy=1", Ops: append([]string{}, prefix...)})
+			return
+		}
+		for _, a := range alpha {
+			uses2 := strings.HasSuffix(a, " 2")
+			if a == "new 2" && made || a != "new 2" && uses2 && !made {
+				continue
+			}
+			rec(append(append([]string{}, prefix...), a), made || a == "new 2")
+		}
+	}
+	rec(nil, false)
+	return out
+}
+
 func c19Gen(r *verifh.Rng) []verifh.Section {
 	var secs []verifh.Section
 	if verifh.Thorough() {
 		secs = append(secs, c19Exhaustive(int(verifh.Seed()%3))...)
 		if verifh.Seed()%3 == 1 {
 			secs = append(secs, c19ExhaustiveInj()...)
+		}
+		if verifh.Seed()%3 == 0 {
+			secs = append(secs, c19ExhaustiveNew()...)
 		}
 	}
 	nsec := verifh.Scale(150, 800)
@@ -252,7 +288,14 @@ func c19Gen(r *verifh.Rng) []verifh.Section {
 		if n < nkeys {
 			nkeys = n
 		}
-		sim := &c19Sim{holder: make([]int, nkeys), rem: make([]int, nkeys), secs: make([]int, n)}
+		// multi-instance dimension: some instances are constructed in the middle of the history
+		total := n
+		lazy := 0
+		if total >= 2 && r.Chance(1, 3) {
+			lazy = r.Range(1, min(total-1, 3))
+		}
+		n = total - lazy // instances constructed so far (0..n-1); grows with every `new`
+		sim := &c19Sim{holder: make([]int, nkeys), rem: make([]int, nkeys), secs: make([]int, total)}
 		for k := range sim.holder {
 			sim.holder[k] = -1
 		}
@@ -265,17 +308,70 @@ func c19Gen(r *verifh.Rng) []verifh.Section {
 			add("ft %d", ms)
 			sim.ft(ms)
 		}
-		acq := func(i int) { add("acquire %d", i); sim.acquire(i, nkeys) }
-		rel := func(i int) { add("release %d", i); sim.release(i, nkeys) }
+		acq := func(i int) {
+			if r.Chance(1, 8) {
+				add("acquirectx %d", i)
+			} else {
+				add("acquire %d", i)
+			}
+			sim.acquire(i, nkeys)
+		}
+		rel := func(i int) {
+			if r.Chance(1, 8) {
+				add("releasectx %d", i)
+			} else {
+				add("release %d", i)
+			}
+			sim.release(i, nkeys)
+		}
+		// construct the next lazy instance; then show that it inherited nothing: its lease is the zero-value lease
+		newInst := func() {
+			if n >= total {
+				return
+			}
+			i := n
+			k := i % nkeys
+			if n > 0 && r.Bool() {
+				// some other instance is configured right before the construction
+				o := r.Intn(n)
+				add("setexpire %d %d", o, r.Pick(1, 2, 5, 60, 4294967))
+				sim.secs[o] = verifh.Atoi(strings.Fields(ops[len(ops)-1])[2])
+			}
+			add("new %d", i)
+			n++
+			if sim.holder[k] >= 0 && r.Bool() {
+				ft := sim.rem[k]
+				add("ft %d", ft)
+				sim.ft(ft)
+			}
+			add("acquire %d", i)
+			sim.acquire(i, nkeys)
+			if sim.holder[k] == i {
+				add("ft %d", 499)
+				sim.ft(499)
+				o := i
+				for j := k; j < n; j += nkeys {
+					if j != i {
+						o = j
+					}
+				}
+				add("acquire %d", o)
+				sim.acquire(o, nkeys)
+				add("ft %d", 1)
+				sim.ft(1)
+				add("acquire %d", o)
+				sim.acquire(o, nkeys)
+			}
+		}
 		setexp := func(i, sec int) { add("setexpire %d %d", i, sec); sim.secs[i] = sec }
 		simApply := func(op string) {
 			f := strings.Fields(op)
 			switch f[0] {
 			case "ft":
 				sim.ft(verifh.Atoi(f[1]))
-			case "acquire":
+			case "acquire", "acquirectx":
 				sim.acquire(verifh.Atoi(f[1]), nkeys)
-			case "release":
+			case "release", "releasectx":
 				sim.release(verifh.Atoi(f[1]), nkeys)
 			case "setexpire":
 				sim.secs[verifh.Atoi(f[1])] = verifh.Atoi(f[2])
@@ -319,6 +415,9 @@ func c19Gen(r *verifh.Rng) []verifh.Section {
 			return cands[r.Intn(len(cands))]
 		}
 		add("ids")
+		if r.Chance(1, 5) {
+			add("mass %d", r.Pick(100, 1000, 3000))
+		}
 		// most instances get a small number of seconds; some keep the zero value (lease = 500 ms)
 		for i := 0; i < n; i++ {
 			if r.Chance(3, 4) {
@@ -327,9 +426,35 @@ func c19Gen(r *verifh.Rng) []verifh.Section {
 		}
 		nops := r.Range(5, verifh.Scale(40, 70))
 		for j := 0; j < nops; j++ {
+			if n < total && r.Chance(1, 6) {
+				newInst()
+				continue
+			}
 			i := r.Intn(n)
 			k := i % nkeys
-			switch x := r.Intn(126); {
+			switch x := r.Intn(132); {
+			case x >= 126:
+				// SetExpire at the boundaries of the lease arithmetic: 0, 1, the last value whose lease in ms fits
+				// in int32 / uint32 and the first that does not, MaxUint32.  The holder must keep the key for
+				// exactly seconds*1000+500 ms: a competitor is refused 1 ms before the end and granted at the end.
+				sec := r.Pick(0, 1, 2147483, 2147484, 4294967, 4294968, 1<<32-1)
+				if sim.holder[k] >= 0 && sim.holder[k] != i {
+					rel(sim.holder[k])
+				}
+				setexp(i, sec)
+				acq(i)
+				if sim.holder[k] == i {
+					b := other(i)
+					ft(r.Pick(sim.rem[k]-1, sim.rem[k]-1, sim.rem[k]/2, 4294967296-1, 4294967296, 2147483648))
+					acq(b)
+					if sim.holder[k] == i {
+						ft(sim.rem[k] - 1)
+						acq(b)
+						ft(1)
+						acq(b)
+					}
+					rel(i)
+				}
 			case x < 22:
 				acq(i)
 			case x < 36:
@@ -343,7 +468,7 @@ func c19Gen(r *verifh.Rng) []verifh.Section {
 				} else {
 					// large but valid seconds: seconds*1000+500 must not wrap in 32 bits (2147483 s is the last
 					// value whose lease fits in int32, 4294967 s in uint32)
-					setexp(i, r.Pick(2147483, 2147484, 4294967, 4294968, 1<<31-1, 1<<31, 1<<32-1))
+					setexp(i, r.Pick(2147483, 2147484, 4294967, 4294968, 65535, 65536, 1<<31-1, 1<<31, 1<<32-1))
 					acq(i)
 				}
 			case x < 60:
@@ -524,7 +649,14 @@ func c19Gen(r *verifh.Rng) []verifh.Section {
 				}
 			}
 		}
-		secs = append(secs, verifh.Section{Cfg: fmt.Sprintf("n=%d keys=%d", n, nkeys), Ops: ops})
+		for n < total {
+			newInst()
+		}
+		cfgTxt := fmt.Sprintf("n=%d keys=%d", total, nkeys)
+		if lazy > 0 {
+			cfgTxt += fmt.Sprintf(" lazy=%d", lazy)
+		}
+		secs = append(secs, verifh.Section{Cfg: cfgTxt, Ops: ops})
 	}
 	return secs
 }
@@ -538,7 +670,8 @@ func TestVerifC19(t *testing.T) {
 	verifh.Run(t, secs, func(cfg verifh.Cfg) (func(op []string) string, func()) {
 		n := cfg.Int("n", 0)
 		nkeys := cfg.Int("keys", 0)
-		if n <= 0 || nkeys <= 0 {
+		lazy := cfg.Int("lazy", 0)
+		if n <= 0 || nkeys <= 0 || lazy < 0 || lazy > n {
 			return func([]string) string { return "bad-cfg" }, nil
 		}
 		hook.disarm()
@@ -549,7 +682,15 @@ func TestVerifC19(t *testing.T) {
 		dup := false
 		idLen := -1
 		idAlpha := true
-		for i := range locks {
+		alphaOK := func(id string) bool {
+			for _, ch := range id {
+				if !(ch >= 'a' && ch <= 'z' || ch >= 'A' && ch <= 'Z' || ch >= '0' && ch <= '9') {
+					return false
+				}
+			}
+			return true
+		}
+		for i := range locks[:n-lazy] {
 			locks[i] = NewRedisLock(client, fmt.Sprintf("k%d", i%nkeys))
 			for _, ch := range locks[i].id {
 				if !(ch >= 'a' && ch <= 'z' || ch >= 'A' && ch <= 'Z' || ch >= '0' && ch <= '9') {
@@ -605,6 +746,9 @@ func TestVerifC19(t *testing.T) {
 			if i < 0 || i >= n {
 				panic("instance out of range")
 			}
+			if locks[i] == nil {
+				panic("instance not constructed yet")
+			}
 			return locks[i]
 		}
 		boolRes := func(b bool, err error) string {
@@ -632,6 +776,10 @@ func TestVerifC19(t *testing.T) {
 				return boolRes(inst(op[1]).Acquire()), true
 			case len(op) == 2 && op[0] == "release":
 				return boolRes(inst(op[1]).Release()), true
+			case len(op) == 2 && op[0] == "acquirectx":
+				return boolRes(inst(op[1]).AcquireCtx(context.WithValue(context.Background(), c19CtxKey{}, 1))), true
+			case len(op) == 2 && op[0] == "releasectx":
+				return boolRes(inst(op[1]).ReleaseCtx(context.WithValue(context.Background(), c19CtxKey{}, 1))), true
 			case len(op) == 3 && op[0] == "setexpire":
 				inst(op[1]).SetExpire(int(verifh.Atoi64(op[2])))
 				return "ok", true
@@ -651,7 +799,8 @@ func TestVerifC19(t *testing.T) {
 				// inj <p> <call> <i> [ op ; op ... ]
 				pos := verifh.Atoi(op[1])
 				outer := op[2:4]
-				if pos < 1 || (outer[0] != "acquire" && outer[0] != "release") || op[4] != "[" || op[len(op)-1] != "]" {
+				if pos < 1 || (outer[0] != "acquire" && outer[0] != "release" && outer[0] != "acquirectx" && outer[0] != "releasectx") ||
+					op[4] != "[" || op[len(op)-1] != "]" {
 					return "bad-op"
 				}
 				var inner [][]string
@@ -667,7 +816,8 @@ func TestVerifC19(t *testing.T) {
 				inner = append(inner, cur)
 				for _, in := range inner { // validate before anything runs
 					if len(in) == 0 || !(in[0] == "ft" && len(in) == 2 || in[0] == "acquire" && len(in) == 2 ||
-						in[0] == "release" && len(in) == 2 || in[0] == "setexpire" && len(in) == 3) {
+						in[0] == "release" && len(in) == 2 || in[0] == "acquirectx" && len(in) == 2 ||
+						in[0] == "releasectx" && len(in) == 2 || in[0] == "setexpire" && len(in) == 3) {
 						return "bad-op"
 					}
 					if in[0] != "ft" {
@@ -701,7 +851,41 @@ func TestVerifC19(t *testing.T) {
 				r, _ := simple(op[1:])
 				hook.disarm()
 				return fmt.Sprintf("%s %s %s", r, cmdsTok(), dump())
-			case op[0] == "ft" || op[0] == "acquire" || op[0] == "release" || op[0] == "setexpire":
+			case op[0] == "mass" && len(op) == 2:
+				m := verifh.Atoi(op[1])
+				if m < 1 || m > 100000 {
+					return "bad-op"
+				}
+				seen := make(map[string]bool, m)
+				res, shape := "distinct", "len=16"
+				for a := 0; a < m; a++ {
+					l := NewRedisLock(client, "k0")
+					_, clash := idOf[l.id]
+					if seen[l.id] || clash {
+						res = "dup"
+					}
+					if len(l.id) != 16 || !alphaOK(l.id) {
+						shape = "len=other"
+					}
+					seen[l.id] = true
+				}
+				return res + " " + shape + " " + dump()
+			case op[0] == "new" && len(op) == 2:
+				i := verifh.Atoi(op[1])
+				if i < 0 || i >= n || locks[i] != nil {
+					return "bad-op"
+				}
+				l := NewRedisLock(client, fmt.Sprintf("k%d", i%nkeys))
+				locks[i] = l
+				if _, ok := idOf[l.id]; ok {
+					return "dup " + dump()
+				}
+				idOf[l.id] = i
+				if !alphaOK(l.id) {
+					return fmt.Sprintf("distinct len=%d alphabet=other %s", len(l.id), dump())
+				}
+				return fmt.Sprintf("distinct len=%d %s", len(l.id), dump())
+			case op[0] == "ft" || op[0] == "acquire" || op[0] == "release" || op[0] == "setexpire" || op[0] == "acquirectx" || op[0] == "releasectx":
 				r, ok := simple(op)
 				if !ok {
 					return "bad-op"
